@@ -105,6 +105,9 @@ def build(run: Run):
     run.verify(*HOOK_FNS)
     run.verify("lemmas_hooks.L1_arm_global", "lemmas_hooks.L1_arm_global_alias", "lemmas_hooks.L1_arm_context", extra_post=dispatch_checked)
     run.verify("lemmas_hooks.L1_arm_ml", extra_post=dispatch_ml)
+    # a protection stays in force across the loads it mediates: the checked loader itself leaves the four bindings alone (its frame),
+    # on its normal and on its raising paths
+    run.verify("loader.load", extra_post=faces.loader_load_path)
     # preservation of `protected` by each non-removing operation, from an arbitrary protected state
     for n in ("L1_keep_run_hook", "L1_keep_activate", "L1_keep_enter"):
         eng.contracts[f"lemmas_hooks.{n}"].requires = ["protected(pickle.load)"]
